@@ -124,6 +124,22 @@ def random_systems(chk, n_sys, seed):
                     chk.case(("rand.warm", k, solver, trans))
                     if not (np.isfinite(warm).all() and rw <= max(10.0 * rc, floor)):
                         chk.kernel_violation(("lin.random.warmstart", solver), {"n": n, "relres_cold": float(rc), "relres_warm": float(rw), "trans": trans})
+        if not sym:
+            # one solver object reused for both orientations, in both orders: each solve answers its own system
+            for solver in ("LU", "GMRES"):
+                for order in ((False, True), (True, False)):
+                    try:
+                        ls = linear_solver(sps.coo_matrix(A).asformat(("coo", "csr", "csc")[k % 3]), SOLVERS[solver], symmetric=False)
+                        sols = [(tr, ls.solve(b, trans=tr)) for tr in order]
+                    except LinearSolverError:
+                        chk.case(("rand.reuse", k, solver, order, "raised"))
+                        continue
+                    for tr, xs in sols:
+                        Ae = A.T if tr else A
+                        rr = np.abs(Ae @ xs - b).max() / np.abs(b).max()
+                        chk.case(("rand.reuse", k, solver, order, tr))
+                        if not (np.isfinite(xs).all() and rr <= (1e-7 if solver == "LU" else 1e-3)):
+                            chk.kernel_violation(("lin.random.reused_solver", solver), {"n": n, "order": list(order), "trans": tr, "relres": float(rr)})
         if k % 2 == 0:
             # KKT-like symmetric indefinite matrix with tiny (non-zero) Hessian diagonal and O(1) coupling: moderate condition
             m = int(rng.integers(2, 8))
